@@ -40,6 +40,7 @@ func runC09(c *Ctx, r *Report) {
 	c09Dispatch(c, r)
 	c09Unescape(c, r)
 	c09Runes(c, r)
+	c09Metacharacters(c, r, "C09-e/metacharacters")
 }
 
 func c09Errors(c *Ctx, r *Report) {
@@ -320,6 +321,7 @@ func runC11(c *Ctx, r *Report) {
 	c11UnitScaling(c, r)
 	// (d) a helper is a function of its arguments: stage closures keep no state between evaluations
 	c05StagePurity(c, r, "C11-d")
+	okResultLive(c, r, "C11-a/ok-live", "rare/pkg/expressions/stdlib")
 }
 
 func c11ErrorMarkers(c *Ctx, r *Report) {
